@@ -230,8 +230,9 @@ type stepOut struct {
 	// Ambiguous: keys (proposal hashes) whose expected content is not pinned by any property in this block
 	Ambiguous map[string]bool
 	// warm-up heights only: admissible issuance per owner [min,max] and what the model itself issued
-	RewardRange map[string][2]*big.Int
-	ModelIssued map[string]*big.Int
+	FormerContractTransfers int
+	RewardRange             map[string][2]*big.Int
+	ModelIssued             map[string]*big.Int
 }
 
 // Step predicts block h. pre = observed state(h-1).
@@ -598,6 +599,16 @@ func (m *Model) applyTx(ws *MState, ti *TxInfo, r *abci.ResponseDeliverTx, h int
 		}
 		if m.Ref != nil && m.Ref.HasCode(hx(tx.To)) {
 			isEVM = true // contracts created by contracts are contracts too
+		}
+		if to := hx(tx.To); m.Ref != nil && !m.Ref.HasCode(to) && (isEVM || m.Ref.Contracts[to]) {
+			// a former contract address (self-destructed, or a deployment that left no code): no contract lives there, so
+			// "plain transfer to a contract address" (C17) and "native transaction" (C16) are both defensible readings.
+			// The route the node took is taken over: a success that used its whole gas limit is the native route.
+			if r.Code != 0 {
+				return // failed either way: no effect, no fee
+			}
+			isEVM = !(uint64(r.GasUsed) == tx.Gas && uint64(r.GasWanted) == tx.Gas)
+			out.FormerContractTransfers++
 		}
 	}
 	if isEVM {
